@@ -242,6 +242,8 @@ def c19(tier, replay=None):
             per[psig] += 1
             if per[psig] > 2 or len(per) > 10:
                 continue
+            if SUBRUN:
+                continue
             jj = shrink_v(binary, j)
             dd = run_vjobs(binary, [jj], batch=1)[0]
             if not dd[1]:
